@@ -44,8 +44,8 @@ func (l *SyncList[T]) Push(value T) {
 
 		if next == nil && atomic.CompareAndSwapPointer(&tailNode.next, next, node) {
 			// atomic.CompareAndSwapPointer(&l.tail, tail, node)
-			atomic.StorePointer(&l.tail, node)
 			atomic.AddInt64(&l.len, 1)
+			atomic.StorePointer(&l.tail, node)
 			return
 		}
 
